@@ -106,7 +106,3 @@ func cmdFuncs(args []string) {
 	fmt.Printf("TOTAL %d/%d discharged in %.1fs\n", ok, tot, time.Since(t0).Seconds())
 }
 
-func cmdCheck(args []string) {
-	fmt.Println("not implemented yet")
-	os.Exit(2)
-}
